@@ -1,2 +1,162 @@
 //! verification hooks for engine `ord` (cfg(xray_verif) only)
 #![allow(unreachable_pub, dead_code, unused_imports)]
+
+use crate::runtime::RTCell;
+use crate::runtime_violation::RuntimeViolation;
+use crate::util::try_heap::TryHeap;
+use crate::util::trysort::try_sort;
+use crate::util::xformatter::{Alignment, SignMode, XFormatting};
+use crate::xvalue::{ManagedXError, XResult};
+use std::rc::Rc;
+
+/// `try_sort` with a comparator supplied by the caller (so that it can fail at the k-th comparison).
+pub fn sort_with<I, F, E0, E1>(v: &mut [I], is_less: F) -> Result<Result<(), E1>, E0>
+where
+    F: FnMut(&I, &I) -> Result<Result<bool, E1>, E0>,
+{
+    try_sort(v, is_less)
+}
+
+pub struct HeapReport<I> {
+    /// items that were never pushed because an earlier push failed
+    pub not_pushed: Vec<I>,
+    /// items popped successfully before the failure (or all `n` pops)
+    pub popped: Vec<I>,
+    /// "ok", "error" (an error value came back) or "violation"
+    pub outcome: &'static str,
+    /// `heap.len()` right after the run (after the failure, if any)
+    pub len_after: usize,
+    /// what further pops deliver afterwards (the comparator is expected not to fail again)
+    pub drained: Vec<I>,
+    /// "ok" unless draining failed too
+    pub drain_outcome: &'static str,
+}
+
+/// The body of `XSequence::n_largest`: push every item, pop `n` times; afterwards the heap is drained
+/// so that its contents can be observed.  `is_le` answers `Ok(b)`, `Err(false)` (a runtime violation)
+/// or `Err(true)` (an error value allocated on `rt`).
+pub fn heap_run<I, W, R, T>(
+    items: Vec<I>,
+    n: usize,
+    mut is_le: impl FnMut(&I, &I) -> Result<bool, bool>,
+    rt: RTCell<W, R, T>,
+) -> HeapReport<I> {
+    let cap = items.len();
+    let mut heap = TryHeap::with_capacity(cap, |a: &I, b: &I| -> XResult<bool, W, R, T> {
+        match is_le(a, b) {
+            Ok(b) => Ok(Ok(b)),
+            Err(false) => Err(RuntimeViolation::MaximumSearch),
+            Err(true) => Ok(Err(ManagedXError::new("E", rt.clone())?)),
+        }
+    });
+    let mut outcome = "ok";
+    let mut not_pushed = Vec::new();
+    let mut popped = Vec::new();
+    let mut it = items.into_iter();
+    for item in it.by_ref() {
+        match heap.push(item) {
+            Ok(Ok(())) => {}
+            Ok(Err(_)) => {
+                outcome = "error";
+                break;
+            }
+            Err(_) => {
+                outcome = "violation";
+                break;
+            }
+        }
+    }
+    not_pushed.extend(it);
+    if outcome == "ok" {
+        for _ in 0..n {
+            match heap.pop() {
+                Ok(Ok(Some(e))) => popped.push(e),
+                Ok(Ok(None)) => break,
+                Ok(Err(_)) => {
+                    outcome = "error";
+                    break;
+                }
+                Err(_) => {
+                    outcome = "violation";
+                    break;
+                }
+            }
+        }
+    }
+    let len_after = heap.len();
+    let mut drained = Vec::new();
+    let mut drain_outcome = "ok";
+    loop {
+        match heap.pop() {
+            Ok(Ok(Some(e))) => drained.push(e),
+            Ok(Ok(None)) => break,
+            _ => {
+                drain_outcome = "failed";
+                break;
+            }
+        }
+    }
+    HeapReport {
+        not_pushed,
+        popped,
+        outcome,
+        len_after,
+        drained,
+        drain_outcome,
+    }
+}
+
+/// Canonical dump of `XFormatting::from_str(s)`: `none`, or
+/// `fill=<c|-> align=<c|-> zero=<0|1> width=<n|-> prec=<n|-> sign=<c|-> group=<c|-> type=<c|-> alt=<0|1>`
+/// (characters as decimal code points; `width=-` means "no fill specs").
+pub fn parse_spec(s: &str) -> String {
+    let Some(f) = XFormatting::from_str(s) else { return "none".to_string(); };
+    let cp = |o: Option<&str>| {
+        o.map_or("-".to_string(), |s| {
+            s.chars()
+                .map(|c| (c as u32).to_string())
+                .collect::<Vec<_>>()
+                .join("+")
+        })
+    };
+    let (fill, align, zero, width) = match &f.fill_specs {
+        None => ("-".to_string(), "-".to_string(), "-".to_string(), "-".to_string()),
+        Some(fs) => (
+            cp(fs.filler),
+            match fs.alignment {
+                None => "-".to_string(),
+                Some(Alignment::Left) => "60".to_string(),
+                Some(Alignment::Right) => "62".to_string(),
+                Some(Alignment::Center) => "94".to_string(),
+                Some(Alignment::RightWithSign) => "61".to_string(),
+            },
+            if fs.zero_pad { "1".to_string() } else { "0".to_string() },
+            fs.width.to_string(),
+        ),
+    };
+    let sign = match &f.sign_mode {
+        None => "-",
+        Some(SignMode::Positive) => "43",
+        Some(SignMode::Negative) => "45",
+        Some(SignMode::Whitespace) => "32",
+    };
+    format!(
+        "fill={fill} align={align} zero={zero} width={width} prec={} sign={sign} group={} type={} alt={}",
+        f.precision.map_or("-".to_string(), |p| p.to_string()),
+        cp(f.grouping),
+        cp(f.ty.type_),
+        if f.ty.alternative { 1 } else { 0 },
+    )
+}
+
+/// `fill_specs.fillers(current_len)` of the parsed spec: the three pads, or `None` when the spec does
+/// not parse / has no fill specs.
+pub fn fillers(s: &str, current_len: usize) -> Option<(String, String, String)> {
+    XFormatting::from_str(s)?.fill_specs.map(|f| f.fillers(current_len))
+}
+
+/// `sign(is_negative)` and `group(digits)` of the parsed spec, rendered.
+pub fn sign_and_group(s: &str, is_negative: bool, digits: &str) -> Option<(String, String)> {
+    let f = XFormatting::from_str(s)?;
+    Some((format!("{}", f.sign(is_negative)), format!("{}", f.group(digits))))
+}
